@@ -42,6 +42,14 @@ var idxNames = []string{"c11a", "c11b", "c11c"}
 func genC11(t *rapid.T) *c11Case {
 	profiles := []gen.Profile{gen.PInt, gen.PFloat, gen.PLowStr, gen.PHighStr, gen.PMixNumStr, gen.PBool}
 	ds := gen.GenDataset(t, gen.DatasetOpts{MinEvents: 8, MaxEvents: pt.Scale(120, 600), MaxCols: 4, Profiles: profiles, NullPct: 3, TsMode: 1})
+	// arrival order against event time: as generated, oldest first, or newest first (a later batch then
+	// carries events older than everything a running search has listed so far)
+	switch rapid.IntRange(0, 2).Draw(t, "arrivalOrder") {
+	case 1:
+		sort.SliceStable(ds.Events, func(i, j int) bool { return ds.Events[i].Ts < ds.Events[j].Ts })
+	case 2:
+		sort.SliceStable(ds.Events, func(i, j int) bool { return ds.Events[i].Ts > ds.Events[j].Ts })
+	}
 	n := len(ds.Events)
 	cs := &c11Case{DS: ds}
 	cs.NIdx = rapid.IntRange(1, 3).Draw(t, "nIdx")
@@ -74,6 +82,17 @@ func genC11(t *rapid.T) *c11Case {
 	cs.RotateN = rapid.IntRange(1, 12).Draw(t, "rotateN")
 	cs.SearchN = rapid.IntRange(1, 12).Draw(t, "searchN")
 	cs.GoMaxProcs = rapid.SampledFrom([]int{1, 2, 4, 16}).Draw(t, "gomaxprocs")
+	if os.Getenv("VERIF_C11_HEAVY") != "" {
+		// development aid: only programmes that search while rotating
+		if cs.Rotators == 0 {
+			cs.Rotators = 2
+		}
+		cs.RotateN = 12
+		cs.SearchN = 12
+		if cs.Searchers < 3 {
+			cs.Searchers = 3
+		}
+	}
 	return cs
 }
 
@@ -258,7 +277,7 @@ func checkC11(cs *c11Case, o *pt.Obs) error {
 		seen := map[int64]bool{}
 		for _, v := range s.Got {
 			if seen[v] {
-				return fmt.Errorf("search %d (%s) on %s returned _vid=%d twice (rotation during search: %v)", si, s.Text, s.Index, v, s.DuringRot)
+				return fmt.Errorf("search %d (%s) on %s returned _vid=%d twice (rotation during search: %v) %v", si, s.Text, s.Index, v, s.DuringRot, s.Odd)
 			}
 			seen[v] = true
 		}
